@@ -163,6 +163,10 @@ def cases(tier, seed):
     for src in ("from_array", "from_arrays", "from_file"):
         for ratio in (1.0, 1.005, 2.0, 0.5, 1.5, 0.75):
             out.append({"family": "rescale", "src": src, "ratio": ratio})
+        # the tolerance is relative: the same ratios at pixel sizes far from 1 nm, on either side of the tolerance, and a caller-given tolerance
+        for orig in (0.25, 4.0, 1.2):
+            for ratio, tol in ((1.03, None), (0.97, None), (1.008, None), (0.992, None), (1.03, 0.05), (1.008, 0.002)):
+                out.append({"family": "rescale", "src": src, "ratio": ratio, "orig": orig, "tol": tol, "long": True})
     for shape_nm in ((6.0, 6.0, 6.0), (5.0, 6.0, 7.0), (4.6, 5.4, 6.0)):
         for scale in (1.0, 0.5, 0.8):
             for sigma in (1.0, (0.8, 1.0, 1.4)):
@@ -412,19 +416,20 @@ def _rescale(case):
     from acryo import pipe
 
     src, ratio = case["src"], case["ratio"]
-    n = (6, 8, 10)
+    n = (6, 8, 40) if case.get("long") else (6, 8, 10)  # 40 voxels: a 3 % change of the pixel size changes the voxel count
     ramp = np.broadcast_to(np.arange(n[2], dtype=np.float32), n).copy()
     rng = np.random.default_rng(8)
     img = rng.random(n).astype(np.float32)
-    orig = 1.2
+    orig = case.get("orig", 1.2)
+    tolkw = {} if case.get("tol") is None else {"tol": case["tol"]}
     scale = orig / ratio
     viol = []
     tmp = None
     try:
         if src == "from_array":
-            get = lambda a: pipe.from_array(a, original_scale=orig)(scale)  # noqa
+            get = lambda a: pipe.from_array(a, original_scale=orig, **tolkw)(scale)  # noqa
         elif src == "from_arrays":
-            get = lambda a: pipe.from_arrays([a, a * 2], original_scale=orig)(scale)[1] / 2  # noqa
+            get = lambda a: pipe.from_arrays([a, a * 2], original_scale=orig, **tolkw)(scale)[1] / 2  # noqa
         else:
             import mrcfile
 
@@ -441,11 +446,11 @@ def _rescale(case):
                 with mrcfile.new(p, overwrite=True) as m:
                     m.set_data(a.astype(np.float32))
                     m.voxel_size = orig * 10
-                return pipe.from_file(p)(scale)
+                return pipe.from_file(p, **tolkw)(scale)
 
         out = np.asarray(get(img))
         want = tuple(int(round(s * ratio)) for s in n)
-        unchanged = abs(ratio - 1) < 0.01
+        unchanged = abs(ratio - 1) < (0.01 if case.get("tol") is None else case["tol"])
         if unchanged:
             if out.shape != n or np.abs(out - img).max() > 1e-6:
                 viol.append((f"{ID}|rescale|{src}|changed-within-tolerance", f"ratio {ratio}: image was resampled (shape {out.shape})"))
